@@ -69,6 +69,8 @@ func runDirect(c *Case, kind string) *Result {
 		}
 		ev = append(ev, "rem="+hx(rd.Msg))
 		r.Ev = ev
+	case "heap":
+		r.Ev = runHeap(c)
 	default:
 		r.End = "cfgerr:unknown-direct"
 	}
